@@ -117,8 +117,9 @@ def check_one(run, model, am, opts, nrel, rng, groups=None):
             got.pop("partition", None); exp.pop("partition", None)
             if got != exp:
                 hit(tgt, "attributes of an atom changed under canonicalization", {"orig": o, "got": str(got), "exp": str(exp)})
-        eb = sorted((tuple(sorted((lam[tr_of[u]], lam[tr_of[v]]))), d.get("bond_type")) for u, v, d in before[2])
-        ec = sorted((tuple(sorted((u, v))), d.get("bond_type")) for u, v, d in c.edges(data=True))
+        # the whole bond data dictionary must be carried: an absent bond type stays absent
+        eb = sorted((tuple(sorted((lam[tr_of[u]], lam[tr_of[v]]))), sorted(d.items())) for u, v, d in before[2])
+        ec = sorted((tuple(sorted((u, v))), sorted(d.items())) for u, v, d in c.edges(data=True))
         if eb != ec:
             hit(tgt, "bonds / bond data changed under canonicalization", {"exp": eb, "got": ec})
         if [lab_of[d[TRACER]] for _, d in c.nodes(data=True)] != before[0]:
